@@ -106,8 +106,8 @@ CHECKS = {
  },
  'C14': {
   'engine': 'V+K', 'design_ref': 'DESIGN.md §5 C14, §10.4e',
-  'technique': 'Verus proof of both filtering visit_seq loops (verbatim, loop invariants injected) for lists of any length against a left-to-right specification; Kani proofs of the two element classifiers and mock-SeqAccess harnesses on the real monomorphised loops',
-  'text': 'Unbounded in the list length: the result is exactly the first two known entries in the platform\'s order, the unknown-format flag is exact, the whole list is read, and the only way to fail is a failure of the underlying sequence. Which entries are "known" is decided by the two classifier functions, proved by Kani over all i32 algorithms / type strings up to 12 bytes and all format strings up to 20 bytes.',
+  'technique': 'Verus proof of both filtering visit_seq loops (verbatim, loop invariants injected) for lists of any length against a left-to-right specification; Verus proofs of the two element classifiers on the verbatim code (KnownPublicKeyCredentialParameters::try_from for every algorithm and type string; AttestationStatementFormat::try_from for strings of any length); Kani proofs of the classifiers (bounded strings) and mock-SeqAccess harnesses on the real monomorphised loops as backstops',
+  'text': 'Unbounded in the list length: the result is exactly the first two known entries in the platform\'s order, the unknown-format flag is exact, the whole list is read, and the only way to fail is a failure of the underlying sequence. Which entries are "known" is decided by the two classifier functions, proved by Verus on the verbatim code: kept iff type == "public-key" and algorithm in {-7, -8} (algorithm carried over unchanged), format kept iff "packed" / "none" - type and format strings of any length (Kani re-checks them over all i32 algorithms / type strings up to 12 bytes and all format strings up to 20 bytes).',
   'note': 'serde SeqAccess modelled by a ghost sequence; heapless Vec::push contract assumed (validated by dep_k_*); element decoding (String<32> capacity etc.) is A4/A8.',
  },
  'C15': {
